@@ -1,9 +1,12 @@
 package checks
 
 import (
+	"time"
+
 	"encoding/json"
 	"fmt"
 	"testing"
+	"verifharness/rclient"
 
 	"pgregory.net/rapid"
 
@@ -16,8 +19,9 @@ import (
 // an ASK), the client gets only the final node's reply, once and in pipeline order, and it terminates.
 
 type c13Case struct {
-	Cfg  sut.Config `json:"cfg"`
-	Spec PipeSpec   `json:"spec"`
+	Cfg    sut.Config `json:"cfg"`
+	Spec   PipeSpec   `json:"spec"`
+	Forget []Req      `json:"fire_and_forget,omitempty"` // writes sent by a client that disconnects right after sending: they must still reach the node the redirection names
 }
 
 // slots of the even 3-master layout: node 0: 0-5460, node 1: 5461-10921, node 2: 10922-16383
@@ -49,6 +53,27 @@ func c13Gen(t *rapid.T) c13Case {
 	nc := rapid.IntRange(1, 3).Draw(t, "nclients")
 	for ci := 0; ci < nc; ci++ {
 		c.Spec.Clients = append(c.Spec.Clients, genClientPipe(t, ci, o, &c.Spec.Plans))
+	}
+	// SET k v ... GET k on a key of one of the pool slots (store semantics): whatever redirections both take,
+	// the read must observe the write
+	if rapid.Bool().Draw(t, "setget") && c.Cfg.ServerConns <= 1 { // order is only promised with one connection per node
+		ci := rapid.IntRange(0, nc-1).Draw(t, "sgclient")
+		k := keyFor(rapid.SampledFrom(c13SlotPool).Draw(t, "sgslot"), ci, 900, 0)
+		v := Bin(fmt.Sprintf("written-by-c%d", ci))
+		cs := &c.Spec.Clients[ci]
+		at := rapid.IntRange(0, len(cs.Reqs)).Draw(t, "sgat")
+		pair := []Req{{Name: Bin("SET"), Args: []Bin{k, v}}, {Name: Bin("GET"), Args: []Bin{k}}}
+		cs.Reqs = append(cs.Reqs[:at], append(pair, cs.Reqs[at:]...)...)
+		cs.Cuts = nil
+		c.Spec.Values = append(c.Spec.Values, Value{Key: k, Val: v, Store: true})
+	}
+	// a client that fires writes at redirected slots and leaves without waiting
+	if rapid.IntRange(0, 2).Draw(t, "forget") == 0 {
+		n := rapid.IntRange(1, 4).Draw(t, "nforget")
+		for i := 0; i < n; i++ {
+			k := keyFor(rapid.SampledFrom(c13SlotPool).Draw(t, "fslot"), 7, i, 0)
+			c.Forget = append(c.Forget, Req{Name: Bin("set"), Args: []Bin{k, Bin("fire-and-forget")}})
+		}
 	}
 	// some keys of migrating slots are still at the source
 	mig := map[int]bool{}
@@ -153,6 +178,12 @@ func c13Exec(c *c13Case) []Discrepancy {
 
 func c13Run(f *Fixture, c *c13Case) []Discrepancy {
 	ds := pipeRunCompare("C13", f, &c.Cfg, &c.Spec, 0)
+	if len(ds) == 0 && len(c.Forget) > 0 {
+		ds = c13Forget(f, c)
+		if len(ds) > 0 {
+			return ds
+		}
+	}
 	// the log tells how often each fragment travelled, and whether ASKING was used correctly
 	mig := map[int]Mig{}
 	for _, m := range c.Spec.Migrating {
@@ -200,6 +231,83 @@ func c13Run(f *Fixture, c *c13Case) []Discrepancy {
 		}
 	}
 	return ds
+}
+
+// c13Forget: a client writes its requests and disconnects at once. The node that answers MOVED/ASK has not
+// executed them, so the proxy must still re-send each to the node the redirection names (the reply is dropped).
+func c13Forget(f *Fixture, c *c13Case) []Discrepancy {
+	spec := PipeSpec{Moved: c.Spec.Moved, Migrating: c.Spec.Migrating, Present: c.Spec.Present}
+	pi := indexPlans(&spec)
+	f.Cluster.ResetLog()
+	f.Cluster.SetHandler(redirectLayer(f, &spec, pi.handler(&gateSet{openAll: true})))
+	defer f.Cluster.SetHandler(nil)
+	cl, err := rclient.Dial(f.Proxy.Addr(), "")
+	if err != nil {
+		return []Discrepancy{disc("C13/cannot-connect", "%v", err)}
+	}
+	var stream []byte
+	for i := range c.Forget {
+		stream = append(stream, c.Forget[i].Encode()...)
+	}
+	cl.Write(stream)
+	cl.Close()
+	moved := map[int]int{}
+	for _, m := range c.Spec.Moved {
+		moved[m.Slot] = m.Node
+	}
+	mig := map[int]Mig{}
+	for _, m := range c.Spec.Migrating {
+		mig[m.Slot] = m
+	}
+	present := map[string]bool{}
+	for _, k := range c.Spec.Present {
+		present[string(k)] = true
+	}
+	// where each write must end up
+	final := func(k Bin) int {
+		s := refmodel.KeySlot(k)
+		if m, ok := mig[s]; ok {
+			if present[string(k)] {
+				return m.Src
+			}
+			return m.Dst
+		}
+		if n, ok := moved[s]; ok {
+			return n
+		}
+		return c13NodeOf(s)
+	}
+	deadline := time.Now().Add(3 * time.Second)
+	for {
+		missing := ""
+		log := f.Cluster.Log()
+		for i := range c.Forget {
+			k := c.Forget[i].Args[0]
+			want := final(k)
+			_, migrating := mig[refmodel.KeySlot(k)]
+			needAsking := migrating && !present[string(k)]
+			ok := false
+			for _, lr := range log {
+				if lr.Node == want && lr.Key(1) == string(k) && (!needAsking || lr.Asking) {
+					ok = true
+				}
+			}
+			if !ok {
+				missing = fmt.Sprintf("%s (slot %d) never reached node %d, where the cluster serves it", q(c.Forget[i].Encode()), refmodel.KeySlot(k), want)
+				break
+			}
+		}
+		if missing == "" {
+			return nil
+		}
+		if time.Now().After(deadline) {
+			if err := f.Responsive(5 * time.Second); err != nil {
+				return append(f.checkAlive("C13", nil), disc("C13/proxy-unresponsive", "%v", err))
+			}
+			return []Discrepancy{disc("C13/redirected-write-lost", "a client sent %d writes and disconnected without waiting; 3 s later %s", len(c.Forget), missing)}
+		}
+		time.Sleep(10 * time.Millisecond)
+	}
 }
 
 func c13Classify(c *c13Case) (bool, []string) {
@@ -259,6 +367,12 @@ func c13Classify(c *c13Case) (bool, []string) {
 	}
 	if c.Spec.RedirDelayMs > 0 {
 		cls = append(cls, "late-redirection-replies")
+	}
+	if len(c.Forget) > 0 {
+		cls = append(cls, "fire-and-forget-writer")
+	}
+	if len(c.Spec.Values) > 0 {
+		cls = append(cls, "set-get-pair-through-redirects")
 	}
 	for _, p := range c.Spec.Plans {
 		if len(p.Reply) > 0 && p.Reply[0] == '-' {
